@@ -95,6 +95,14 @@ is undecided, not refuted.  op_table: a return path that wraps only the left cal
 result is the number).  SearchSim starts at a time of day (09:00) and evaluates the cut-to-midnight idioms, so a step or
 a result that loses the time of day is refuted with the deviating input.
 
+Round 7 additions.  The operand list may be stored by `if calendars is None: self.F = [] / else: self.F = calendars` or
+by a default `self.F = []` overwritten under `calendars is not None`.  A local table built as `dict(self.F)` / `self.F.copy()`
++ `.update(..)` and then stored into the field is followed (the copy is the state entry); a local whose construction is not
+followed makes units_nonnegative undecided, not refuted.  `|`: an operand value returned after the loop without a `> 0`
+test (a "fallback" operand) is refuted.  none_is_zero: answering through an attribute that __init__ derived once from the
+calendar argument (`self._units = calendar.get_available_units`, `self._cal = calendar`) while `self.calendar` stays
+assignable is refuted (stale alias) unless some other method refreshes the alias.
+
 The decision procedures evaluate the (loop free) blocks over finite abstract domains (see c17_util): unit values by
 sign class {None, <0, 0, >0}, dates by their position against a validity interval, direction in {-1, +1}.
 
@@ -620,6 +628,24 @@ def _field_iter(ctx, o, f, loop, K, H=None):
         o.undecided(f, loop, K, "combinator without a constructor in the package")
         return False
     stores = facts.attr_stores(init, field)
+    if len(stores) > 1 and len(init.params) >= 2:
+        # `if calendars is None: self.F = [] / else: self.F = calendars`: stores of an empty literal on the "no operand
+        # list given" path do not count
+        def empty_on_none(st):
+            v = st[2]
+            if not ((isinstance(v, (ast.List, ast.Tuple)) and not v.elts) or match("list()", v) or match("tuple()", v)):
+                return False
+            def under(stmt, is_none):
+                return any(len(cl) == 1 and (U.none_atom(*cl[0]) or (None, None))[1] is is_none and _name(U.none_atom(*cl[0])[0], init.params[1])
+                           for cl in U.path_clauses(prog, init, stmt, ctx.typer))
+            if under(st[0], True):
+                return True
+            # a default that is overwritten when an operand list is given: `self.F = []; if calendars is not None: self.F = calendars`
+            cfg_ = cfg_of(init)
+            others = [x for x in stores if x is not st and not ((isinstance(x[2], (ast.List, ast.Tuple)) and not x[2].elts))]
+            return len(others) == 1 and under(others[0][0], False) and cfg_.node_of(st[0]) is not None and \
+                cfg_.node_of(others[0][0]) is not None and cfg_.dominates(cfg_.node_of(st[0]), cfg_.node_of(others[0][0]))
+        stores = [st for st in stores if not empty_on_none(st)]
     if len(stores) != 1 or len(init.params) < 2:
         o.undecided(init, init.node, field, "operand list is not stored exactly once by __init__")
         return False
@@ -1049,6 +1075,19 @@ def _disjunction(ctx, o, f, K, pre, loop, tail):
     rv = _result_var_form(pre, loop, tail)
     if rv is not None:
         loop, tail = rv
+    # whatever the loop iterates: after it, no operand value may be handed back untested
+    r0 = run_block(tail, Ev([]), Expander(prog, f, ctx.typer))
+    if r0.kind != 'return':
+        ex0 = Expander(prog, f, ctx.typer)
+        for rt in [n for st in tail for n in ast.walk(st) if isinstance(n, ast.Return) and n.value is not None]:
+            for _, leaf in _ret_leaves(ex0.expand(rt.value)):
+                if isinstance(leaf, ast.Call) and isinstance(leaf.func, ast.Attribute) and leaf.func.attr == 'get_available_units':
+                    r0 = U.Outcome('return', rt, leaf)
+    if r0.kind == 'return' and isinstance(r0.value, ast.Call) and isinstance(r0.value.func, ast.Attribute) \
+            and r0.value.func.attr == 'get_available_units':
+        o.refute(f, r0.stmt, r0.stmt, f"`|` returns `{src(r0.value)[:60]}` after the loop without testing that it is positive: an operand "
+                                      f"value of 0 (or a negative one) is handed on as information, expected None when no operand is positive")
+        return
     if not _field_iter(ctx, o, f, loop, K):
         return
     v = _elem_call(ctx, o, f, loop)
@@ -1882,12 +1921,13 @@ def _field_stores(ctx, f, field, kind):
                     L = en.expr.id
                     _local_depth[0] += 1
                     try:
-                        st = _stores_in(ctx, f, lambda x, L=L: isinstance(x, ast.Name) and x.id == L, 'mapping', '')
+                        st = _stores_in(ctx, f, lambda x, L=L: isinstance(x, ast.Name) and x.id == L, 'mapping', field)
                     finally:
                         _local_depth[0] -= 1
                     cfg = cfg_of(f)
                     sn = cfg.node_of(stmt)
-                    if st and all(e2 is not None and not any(e.kind == 'whole' for e in e2) for _, e2 in st) and sn is not None and \
+                    if st and all(e2 is not None and not any(e.kind == 'whole' and not (isinstance(e.expr, ast.Name) and e.expr.id in f.params)
+                                                             for e in e2) for _, e2 in st) and sn is not None and \
                             all(cfg.node_of(s2) is not None and cfg.can_reach(cfg.node_of(s2), sn) for s2, _ in st):
                         recs = [_Store(f, s2, e2, {}, f, s2) for s2, e2 in st]
                 if recs:
@@ -2091,6 +2131,8 @@ def _nonneg(ctx):
                             continue
                         if en.kind == 'whole':
                             r = prove_all(f, stmt, en.expr, gs, ctor)
+                            if r is None and isinstance(en.expr, ast.Name) and en.expr.id not in f.params:
+                                r = ('unk', f"the table is taken from the local `{en.expr.id}`, whose construction the rule could not follow", en.expr)
                             verdicts.append((r, f"all values of `{src(en.expr)}`", en.expr))
                             continue
                         binds = S.binds(ctx, en)
@@ -2607,6 +2649,46 @@ def _none_zero(ctx):
             one(o, f)
         truthiness(o)
 
+    def stale_alias(o, f):
+        """the answer is taken through an attribute that __init__ derived from the calendar argument (`self._cal =
+        calendar`, `self._units = calendar.get_available_units`) while the class also keeps the public, assignable
+        `self.calendar`: a calendar assigned later is ignored.  True after a refutation"""
+        init = prog.find_method(f.cls, '__init__') if f.cls else None
+        if init is None or not f.params or not init.params:
+            return False
+        exi = Expander(prog, init, ctx.typer)
+        cfgi = cfg_of(init)
+        src_param, aliases = None, {}
+        for st, tgt, val in facts.attr_stores(init):
+            if val is None or not _name(tgt.value, init.params[0]):
+                continue
+            v = exi.expand(val, cfgi.node_of(st))
+            if tgt.attr == 'calendar':
+                roots = [n.id for n in ast.walk(v) if isinstance(n, ast.Name) and n.id in init.params[1:]]
+                src_param = roots[0] if roots else src_param
+            else:
+                aliases[tgt.attr] = (st, v)
+        if src_param is None:
+            return False
+        for c in [n for n in walk_no_nested(f.node) if isinstance(n, ast.Call)]:
+            fn = c.func
+            root = fn
+            while isinstance(root, ast.Attribute) and not _name(root.value, f.params[0]):
+                root = root.value
+            if not (isinstance(root, ast.Attribute) and _name(root.value, f.params[0]) and root.attr in aliases):
+                continue
+            st, v = aliases[root.attr]
+            if (_name(v, src_param) or match(f"{src_param}.get_available_units", v)) and \
+                    not facts.attr_stores(f, root.attr) and len(facts.attr_stores(init, root.attr)) == 1:
+                if any(m_ is not init and facts.attr_stores(m_, root.attr) for m_ in prog.cls(f.cls).methods.values()) or \
+                        any(facts.attr_stores(m_, root.attr) for m_ in prog.cls(f.cls).setters.values()):
+                    continue            # the alias is refreshed somewhere (e.g. by a calendar setter): not decided here
+                o.refute(f, c, c, f"{f.cls}.get_available_units answers through `self.{unmangle(root.attr)}`, which __init__ derived once from the "
+                                  f"calendar argument (`{src(st)[:70]}`), instead of asking `self.calendar`: a calendar assigned to the "
+                                  f"resource later is ignored, the answer is not its calendar's value for the date")
+                return True
+        return False
+
     def truthiness(o):
         """the resource's calendar is the one it was given: a truth test of a calendar object (`calendar or DEFAULT`,
         `if not self.calendar`) replaces / ignores a calendar whose class defines __len__ or __bool__ when it is empty"""
@@ -2652,6 +2734,8 @@ def _none_zero(ctx):
         ex = Expander(prog, f, ctx.typer)
         calls = [c for c in walk_no_nested(f.node) if isinstance(c, ast.Call) and isinstance(c.func, ast.Attribute)
                  and c.func.attr == 'get_available_units']
+        if stale_alias(o, f):
+            return
         if len(calls) != 1:
             o.undecided(f, f.node, 'calendar query', f"{len(calls)} calendar queries")
             return
